@@ -40,6 +40,9 @@ def gen_plan(r, index, tier):
     if kind == 'pipe':
         conf['threshold'] = r.choice([4, 16, 64, 8192, 8192])
         conf['prewrap'] = r.random() < 0.5
+        if r.random() < 0.3:
+            # io.BufferedReader over the non-blocking double (os.fdopen() of a non-blocking descriptor)
+            conf['buffered'] = r.choice([1, 3, 16, 8192])
     steps = ['SCHEDULE']   # placeholder resolved below (needs the stream length)
     pl = {'check': ID, 'workload': w, 'config': conf}
     # the schedule needs |s| and the structural points: build the stream once at generation time
@@ -340,7 +343,9 @@ def _execute_one(plan, wl=None):
     try:
         st = W.open_stream(conf['kind'], wl.stream, trace)
         cons = W.Consumer(wl.dec_mod, st, wl.spec, wl.dec_kw, trace=trace,
-                          prewrap=conf.get('prewrap', False))
+                          prewrap=conf.get('prewrap', False), buffered=conf.get('buffered'))
+        if conf.get('buffered'):
+            ctr['knob.buffered_reader.%s' % conf['buffered']] = 1
         state = {'got': 0, 'closed': conf['kind'] == 'bio', 'stopped': False, 'underruns': 0}
         try:
             for idx, step in enumerate(plan['steps']):
